@@ -207,6 +207,19 @@ CLAIMED['C04'] = (
     'stated lemma (so flux(z) = line density); beam placement by translation only; CODATA constants taken from scipy as the '
     'package does.',
     'DESIGN.md §4 C04', TECH)
+CLAIMED['C12'] = (
+    'EFITEquilibrium.__init__ / map2d / map3d / map_vector2d / map_vector3d, EFITLCFSMask, MagneticField, PoloidalFieldVector, '
+    'FluxSurfaceNormal, FluxCoordToCartesian, IsoMapper2D, (Vector)AxisymmetricMapper and ClampOutput2D are executed from source on a '
+    'symbolic equilibrium (3x3 psi grid quick, up to 4x4 thorough; symbolic uniform axes, psi nodes, psi_axis != psi_lcfs of either sign, '
+    'F profile, vacuum field) at a symbolic point of the grid domain. z3 (QF_NRA) decides per path: psi_n = max(0, (psi-psi_axis)/(psi_lcfs-'
+    'psi_axis)) >= 0, inside_lcfs = polygon AND psi_n <= 1, map2d = profile(psi_n) inside / outside value elsewhere (function and 2xN '
+    'array profiles), map3d(x,y,z) = map2d(sqrt(x^2+y^2), z), derivative grids = second-order differences of psi, B = (-psi_z/r, F/r | '
+    'B0R0/r, psi_r/r), basis orthonormal with n = p x t, p along the in-plane field, B.n = 0, mapped vectors have exactly the prescribed '
+    'components, map_vector3d = map_vector2d rotated by the toroidal angle. Bounded, not a proof.',
+    'the cubic interpolators are modelled by contract (linear functional of node data with uninterpreted weights summing to one); the '
+    'polygon test is an uninterpreted 0/1 function; basis identities are proved for abstracted field components (generalisation); '
+    'psin_to_r is outside; the bundled equilibria are covered only as instances of "any psi grid" up to the stated grid sizes.',
+    'DESIGN.md §4 C12', TECH)
 NOT_YET = {}
 props = [json.loads(l) for l in open(os.path.join(HERE, 'properties.jsonl'))]
 checks, na = [], []
